@@ -69,7 +69,11 @@ impl FromStr for Blob {
     fn from_str(mut s: &str) -> Result<Self, Self::Err> {
         let mut v = Vec::with_capacity(s.len());
         while !s.is_empty() {
-            if let Some(ss) = s.strip_prefix("\\x") {
+            if let Some(ss) = s.strip_prefix("\\\\") {
+                // an escaped backslash, as printed by `Display`
+                v.push(b'\\');
+                s = ss;
+            } else if let Some(ss) = s.strip_prefix("\\x") {
                 if ss.len() < 2 {
                     return Err(ParseBlobError::UnexpectedEof);
                 }
@@ -137,8 +141,9 @@ impl Deref for BlobRef {
 }
 
 impl fmt::Debug for BlobRef {
+    /// A quoted SQL literal.
     fn fmt(&self, f: &mut fmt::Formatter<'_>) -> fmt::Result {
-        write!(f, "'{self}'")
+        write!(f, "'{}'", self.to_string().replace('\'', "''"))
     }
 }
 
@@ -147,7 +152,6 @@ impl fmt::Display for BlobRef {
         for &b in &self.0 {
             match b {
                 b'\\' => write!(f, "\\\\")?,
-                b'\'' => write!(f, "''")?,
                 32..=126 => write!(f, "{}", b as char)?,
                 _ => write!(f, "\\x{b:02X}")?,
             }
